@@ -12,12 +12,17 @@ import (
 	"sync"
 	"time"
 
+	"mellium.im/xmlstream"
 	"mellium.im/xmpp"
 	"mellium.im/xmpp/jid"
 	"mellium.im/xmpp/stream"
 
 	"verifharness/common"
 )
+
+// NSFraming is the namespace of the WebSocket subprotocol's framing elements: ordinary content
+// on a TCP stream.
+const NSFraming = "urn:ietf:params:xml:ns:xmpp-framing"
 
 // Addresses of the sessions under test.
 var (
@@ -192,6 +197,97 @@ func (c *ctx) check(ns string, body []byte, progs []Prog, class string) {
 // (closed0) or closes in a handler (Prog.Close): writes fail from then on, stream-level
 // constructs must still end Serve with their error.
 func (c *ctx) checkX(closed0 bool, ns string, body []byte, progs []Prog, class string) {
+	c.checkO(caseOpt{closed0: closed0, opt: Opts{FailAfter: -1}}, ns, body, progs, class)
+}
+
+// Pend is a local request (SendIQ) that is waiting for its response while the peer's input is
+// served; its waiter reads Reads tokens of the response it is handed (-1 = all of it) and then
+// closes it, as the documentation of SendIQ allows.
+type Pend struct {
+	ID    string
+	Name  xml.Name
+	Reads int
+}
+
+func encPends(ps []Pend) (string, string) {
+	var pf, rf []string
+	for _, p := range ps {
+		pf = append(pf, fmt.Sprintf("%x=%x=%x", p.ID, p.Name.Space, p.Name.Local))
+		rf = append(rf, fmt.Sprint(p.Reads))
+	}
+	return common.Join(pf, ","), common.Join(rf, ",")
+}
+
+func decPends(pd, rd string) []Pend {
+	if pd == "-" {
+		return nil
+	}
+	var ps []Pend
+	reads := strings.Split(rd, ",")
+	for i, x := range strings.Split(pd, ",") {
+		f := strings.Split(x, "=")
+		if len(f) != 3 {
+			continue
+		}
+		a, _ := unhexF(f[0])
+		b, _ := unhexF(f[1])
+		d, _ := unhexF(f[2])
+		p := Pend{ID: a, Name: xml.Name{Space: b, Local: d}, Reads: -1}
+		if i < len(reads) {
+			fmt.Sscanf(reads[i], "%d", &p.Reads)
+		}
+		ps = append(ps, p)
+	}
+	return ps
+}
+
+// caseOpt are the dimensions of a case beyond input and handler programs.
+type caseOpt struct {
+	closed0 bool   // the local side closed its output before Serve
+	opt     Opts   // address change during negotiation, write faults
+	pends   []Pend // local requests waiting for their response
+}
+
+// startPends parks one SendIQ call per pending request; the returned function ends them.
+func startPends(pends []Pend, delivered *[]string, mu *sync.Mutex) func(s *xmpp.Session, out *common.SafeBuffer) func() {
+	return func(s *xmpp.Session, out *common.SafeBuffer) func() {
+		var wg sync.WaitGroup
+		cctx, cancel := context.WithCancel(context.Background())
+		for _, p := range pends {
+			p := p
+			wg.Add(1)
+			want := out.Len()
+			go func() {
+				defer wg.Done()
+				st := xml.StartElement{Name: p.Name, Attr: []xml.Attr{{Name: name("type"), Value: "get"}, {Name: name("id"), Value: p.ID}, {Name: name("to"), Value: "peer@example.net"}}}
+				q := xml.StartElement{Name: xml.Name{Space: "urn:q", Local: "q"}}
+				resp, err := s.SendIQ(cctx, xmlstream.Wrap(xmlstream.Wrap(nil, q), st))
+				if err != nil || resp == nil {
+					return
+				}
+				for i := 0; p.Reads < 0 || i < p.Reads; i++ {
+					tok, err := resp.Token()
+					if err != nil || tok == nil {
+						break
+					}
+				}
+				mu.Lock()
+				*delivered = append(*delivered, p.ID)
+				mu.Unlock()
+				resp.Close()
+			}()
+			// wait until the request is on the wire: its table entry exists from then on
+			for i := 0; i < 5000 && out.Len() == want; i++ {
+				time.Sleep(200 * time.Microsecond)
+			}
+		}
+		return func() { cancel(); wg.Wait() }
+	}
+}
+
+// checkO runs one case with all its dimensions.
+func (c *ctx) checkO(co caseOpt, ns string, body []byte, progs []Prog, class string) {
+	closed0 := co.closed0
 	r := c.r
 	local, remote := addrs(ns)
 	toks := Tokens(ns, body)
@@ -211,12 +307,21 @@ func (c *ctx) checkX(closed0 bool, ns string, body []byte, progs []Prog, class s
 	if closed0 {
 		before = func(s *xmpp.Session, out *common.SafeBuffer) func() { _ = s.Close(); return nil }
 	}
-	res := ServeHook(ns, local, remote, body, progs, nil, before)
+	var mu sync.Mutex
+	var deliveredIDs []string
+	if len(co.pends) > 0 {
+		before = startPends(co.pends, &deliveredIDs, &mu)
+	}
+	res := ServeOpt(co.opt, ns, local, remote, body, progs, nil, before)
 	line := CaseLine(ns, res.LocalBare, toks, progs)
 	if anyClose {
 		line = "servex " + common.B(closed0) + strings.TrimPrefix(line, "serve")
 	}
-	lines := []string{r.Prop + " " + line, "#body " + common.Hex(body)}
+	pd, rd := encPends(co.pends)
+	if len(co.pends) > 0 {
+		line = strings.Join([]string{"servepw", NsField(ns), common.HexS(res.LocalBare), JidMap(toks), pd, rd, common.EncToks(toks), EncProgs(progs)}, " ")
+	}
+	lines := []string{r.Prop + " " + line, "#body " + common.Hex(body), "#opts " + co.opt.Enc() + " " + pd + " " + rd}
 	els, closed, werr := Written(ns, res.Out)
 	closed = closed || closed0
 	wobs, cond := WrittenObs(els)
@@ -231,25 +336,69 @@ func (c *ctx) checkX(closed0 bool, ns string, body []byte, progs []Prog, class s
 		r.Fail("no-panic", "panic", lines, res.Panic)
 		return
 	}
-	r.Line(line, fmt.Sprintf("%s %s %s", EncInvs(res.Invs), wobs, cls))
+	if len(co.pends) > 0 {
+		mu.Lock()
+		var dl []string
+		for _, d := range deliveredIDs {
+			dl = append(dl, fmt.Sprintf("%x", d))
+		}
+		mu.Unlock()
+		r.Line(line, fmt.Sprintf("%s %s %s %s", EncInvs(res.Invs), wobs, cls, common.Join(dl, ",")))
+	} else {
+		r.Line(line, fmt.Sprintf("%s %s %s", EncInvs(res.Invs), wobs, cls))
+	}
 	ex := expect(toks)
+	// responses that belong to a pending local request go to its waiter, not to the handler:
+	// the first top-level element of type result/error whose id is that of a request still
+	// pending and whose name is the request's (or the request's was unqualified)
+	table := append([]Pend(nil), co.pends...)
+	var toWaiter []bool
+	for _, e := range ex.elems {
+		typ, id := attrVal(e.start.Attr, "type"), attrVal(e.start.Attr, "id")
+		hit := false
+		if typ == "result" || typ == "error" {
+			for i, p := range table {
+				if p.ID == id {
+					if p.Name == e.start.Name || p.Name == (xml.Name{Local: e.start.Name.Local}) {
+						hit = true
+						table = append(table[:i:i], table[i+1:]...)
+					}
+					break
+				}
+			}
+		}
+		toWaiter = append(toWaiter, hit)
+	}
+	var handled []expElem // the elements that must reach the handler, in order
+	for k, e := range ex.elems {
+		if !toWaiter[k] {
+			handled = append(handled, e)
+		}
+	}
+	if n := len(ex.elems); n > 0 && toWaiter[n-1] && ex.elems[n-1].dirty != "" {
+		class += "/dirty-response"
+	}
 	r.Case(line, true, class+"/"+ex.end)
 
 	fail := func(clause, key, detail string) { r.Fail(clause, key, lines, detail) }
+	// the address bound during negotiation is the session's own address from then on
+	if co.opt.Rebind != "" && res.LocalBare != co.opt.NewAddr.Bare().String() {
+		fail("from-blank", "address-not-updated", fmt.Sprintf("the session was given the address %s during negotiation (%s) but serves as %s", co.opt.NewAddr, co.opt.Rebind, res.LocalBare))
+	}
 	if werr != nil && !partial {
 		fail("output-wellformed", "output", werr.Error())
 	}
 	// one invocation per top-level element, in order, none after the stream-level construct;
 	// a single pass over the elements with the state of the session: output open / left inside
 	// an element by a partial write / closed, close deadline passed
-	wantN := len(ex.elems)
+	wantN := len(handled)
 	wantEnd := ex.end
 	st := "open"
 	if closed0 {
 		st = "closed"
 	}
 	expired := false
-	for k, e := range ex.elems {
+	for k, e := range handled {
 		if expired {
 			wantN, wantEnd = k, "deadline"
 			break
@@ -305,7 +454,7 @@ func (c *ctx) checkX(closed0 bool, ns string, body []byte, progs []Prog, class s
 			break // the element itself ends the session (ex.end)
 		}
 	}
-	if expired && wantN == len(ex.elems) && wantEnd == ex.end && (len(ex.elems) == 0 || ex.elems[len(ex.elems)-1].dirty == "") {
+	if expired && wantN == len(handled) && wantEnd == ex.end && (len(ex.elems) == 0 || ex.elems[len(ex.elems)-1].dirty == "") {
 		// the deadline is noticed before whatever follows the last element is looked at
 		wantEnd = "deadline"
 	}
@@ -313,10 +462,10 @@ func (c *ctx) checkX(closed0 bool, ns string, body []byte, progs []Prog, class s
 		fail("one-per-element", "count", fmt.Sprintf("%d invocations, want %d", len(res.Invs), wantN))
 	}
 	for k, inv := range res.Invs {
-		if k >= len(ex.elems) {
+		if k >= len(handled) {
 			break
 		}
-		e := ex.elems[k]
+		e := handled[k]
 		// start tag (with the from normalisation)
 		want := e.start.Copy()
 		isStanza := (want.Name.Local == "iq" || want.Name.Local == "message" || want.Name.Local == "presence") && want.Name.Space == ns
@@ -513,6 +662,8 @@ var factKinds = []struct{ name, xml string }{
 	{"stream-other", `<stream:features/>`},
 	{"plain", `<e xmlns="urn:e"/>`},
 	{"close", `</stream:stream>`},
+	{"framing-open", `<open xmlns="` + NSFraming + `"/>`},
+	{"framing-close", `<close xmlns="` + NSFraming + `"/>`},
 }
 
 // verdictFacts runs the real reader (through real sessions) on the finite grid token kind x
@@ -640,7 +791,14 @@ var topItems = []string{
 	`</stream:stream>`,
 	`<b xmlns="urn:b"><stream:features/></b>`,
 	`<message><c xmlns="urn:c"><![CDATA[<x>]]></c></message>`,
+	`<open xmlns="` + NSFraming + `" to="example.com" version="1.0"/>`,
+	`<message id="m6"><fwd xmlns="urn:f"><close xmlns="` + NSFraming + `"/></fwd></message>`,
 }
+
+// Rets is every non-nil value a handler program can return: a plain error, io.EOF, a
+// stanza.Error, a stream.Error, and errors that wrap / join those sentinels (not identical to
+// them, found by errors.Is / errors.As).
+var Rets = []string{"fail", "eof", "stanzaerr", "streamerr", "wrapeof", "wrapueof", "wrapstanza", "wrapstream", "joineof"}
 
 func progReads(n int, ret string) Prog {
 	p := Prog{Ret: ret}
@@ -659,7 +817,8 @@ func wMessage(id string) []xml.Token {
 }
 
 func genElement(rnd *common.Rand, depth int, dirtyOK bool) string {
-	names := []string{"message", "presence", "iq", `x xmlns="urn:x"`, "foo", `q xmlns="jabber:iq:roster"`, `message xmlns="urn:other"`}
+	names := []string{"message", "presence", "iq", `x xmlns="urn:x"`, "foo", `q xmlns="jabber:iq:roster"`, `message xmlns="urn:other"`,
+		`open xmlns="` + NSFraming + `"`, `close xmlns="` + NSFraming + `"`, `stream xmlns="` + NSFraming + `"`}
 	n := names[rnd.Intn(len(names))]
 	local := strings.Fields(n)[0]
 	var sb strings.Builder
@@ -741,11 +900,8 @@ func genProgs(rnd *common.Rand, n int) []Prog {
 	ps := make([]Prog, rnd.Intn(n+2))
 	for i := range ps {
 		p := Prog{Ret: "ok"}
-		switch rnd.Intn(14) {
-		case 0:
-			p.Ret = "fail"
-		case 1:
-			p.Ret = "eof"
+		if rnd.Chance(1, 6) {
+			p.Ret = Rets[rnd.Intn(len(Rets))]
 		}
 		nops := rnd.Intn(12)
 		if rnd.Chance(1, 5) {
@@ -910,6 +1066,100 @@ func Run(r *common.Run) error {
 		}
 	}
 
+	// what a handler returns: every error value of the alphabet, by the handler of the k-th of
+	// 1..3 elements, after it read nothing / part / beyond the end of its element (the reads
+	// past the end return io.EOF, which is what such handlers typically wrap and return); the
+	// session ends with that error, nothing after that element is handled
+	for _, ns := range []string{NSClient, NSServer} {
+		for _, ret := range Rets {
+			for cnt := 1; cnt <= 3; cnt++ {
+				for at := 0; at < cnt; at++ {
+					for ri, reads := range []int{0, 2, 40} {
+						if ns == NSServer && ri != 2 {
+							continue
+						}
+						body := ""
+						ps := make([]Prog, cnt)
+						for k := 0; k < cnt; k++ {
+							body += ordinary[(k+at+ri)%len(ordinary)]
+							ps[k] = progReads(k, "ok")
+						}
+						ps[at] = progReads(reads, ret)
+						c.check(ns, []byte(body+"</stream:stream>"), ps, "handler-returns")
+					}
+				}
+			}
+		}
+	}
+
+	// the session's own address changes during negotiation (resource binding assigns another
+	// bare address through UpdateAddr, or the peer's stream header names another `to`): the
+	// from normalisation compares with the address the session has when it serves
+	for _, ns := range []string{NSClient, NSServer} {
+		old := map[string]string{NSClient: "me@example.com", NSServer: "example.com"}[ns]
+		for _, na := range []string{"bound@example.org/r2", "me@example.com/other", "example.org", "ME2@example.com"} {
+			nj := jid.MustParse(na)
+			nb := nj.Bare().String()
+			for _, how := range []string{"update", "header"} {
+				for _, from := range []string{nb, nj.String(), old, "other@example.net", ""} {
+					for _, el := range []string{
+						`<message from="` + from + `" id="a1"><body>x</body></message>`,
+						`<iq type="get" id="a2" from="` + from + `"><q xmlns="urn:q"/></iq>`,
+						`<presence xmlns:p="urn:p" p:from="` + nb + `" from="` + from + `"/>`,
+						`<x xmlns="urn:x" from="` + from + `"/>`,
+					} {
+						c.checkO(caseOpt{opt: Opts{Rebind: how, NewAddr: nj, FailAfter: -1}}, ns, []byte(el+`<message from="`+nb+`" id="last"/></stream:stream>`), []Prog{progReads(1, "ok")}, "rebind")
+					}
+				}
+			}
+		}
+	}
+
+	// local requests are pending (SendIQ parked) while the peer's elements are served: a
+	// response goes to its waiter, which reads nothing / part (stopping inside a nested child) /
+	// all of it and closes it; whatever it left unread, the next invocation begins at the next
+	// top-level element
+	responses := []string{
+		`<iq type="result" id="p1"><query xmlns="urn:q"><item><sub>t</sub></item><item/></query><extra xmlns="urn:e"/></iq>`,
+		`<iq type="error" id="p1"><query xmlns="urn:q"><a><b><c/></b></a></query><error type="cancel"><item-not-found xmlns="urn:ietf:params:xml:ns:xmpp-stanzas"/></error></iq>`,
+		`<iq type="result" id="p1"/>`,
+		`<iq type="result" id="p1">text<q xmlns="urn:q"/></iq>`,
+	}
+	followers := []string{
+		`<message id="f1"><body>hi</body></message>`,
+		`<iq type="get" id="f2"><q xmlns="urn:q"/></iq><presence/>`,
+		``,
+		`<iq type="result" id="p1"><late xmlns="urn:l"/></iq><message id="f3"/>`,
+	}
+	for _, ns := range []string{NSClient, NSServer} {
+		for ri, resp := range responses {
+			ntok := len(Tokens(ns, []byte(resp)))
+			for reads := -1; reads <= ntok+1; reads++ {
+				for fi, fol := range followers {
+					if ns == NSServer && (fi+ri+reads)%3 != 0 {
+						continue
+					}
+					for _, pn := range []xml.Name{{Local: "iq"}, {Space: ns, Local: "iq"}} {
+						if pn.Space != "" && (reads+fi)%2 != 0 {
+							continue
+						}
+						pre := ""
+						if (reads+fi)%3 == 0 {
+							pre = `<message id="pre"/>`
+						}
+						ps := []Prog{progReads(2, "ok"), progReads(40, "ok"), progReads(0, "ok")}
+						c.checkO(caseOpt{opt: Opts{FailAfter: -1}, pends: []Pend{{ID: "p1", Name: pn, Reads: reads}}}, ns, []byte(pre+resp+fol+"</stream:stream>"), ps, "pending")
+					}
+				}
+			}
+		}
+		// two requests pending, responses in the other order, a response nobody waits for
+		two := []Pend{{ID: "p1", Name: name("iq"), Reads: 3}, {ID: "p2", Name: name("iq"), Reads: 2}}
+		c.checkO(caseOpt{opt: Opts{FailAfter: -1}, pends: two}, ns, []byte(strings.ReplaceAll(responses[1], "p1", "p2")+responses[0]+strings.ReplaceAll(responses[0], "p1", "zz")+followers[0]+"</stream:stream>"), nil, "pending")
+		// a stream-level construct inside a response ends the session with its error
+		c.checkO(caseOpt{opt: Opts{FailAfter: -1}, pends: two[:1]}, ns, []byte(`<iq type="result" id="p1"><query xmlns="urn:q"><item/><!--c--><item/></query></iq>`+followers[0]+"</stream:stream>"), nil, "pending")
+	}
+
 	// random
 	rnd := r.Rnd
 	n := r.Pick(2500, 40000)
@@ -934,7 +1184,43 @@ func Run(r *common.Run) error {
 			ps[rnd.Intn(len(ps))].Close = true
 			// a handler cannot close after it wrote (it holds the output lock): Close comes first
 		}
-		c.checkX(rnd.Chance(1, 16), ns, []byte(body), ps, "random")
+		co := caseOpt{closed0: rnd.Chance(1, 16), opt: Opts{FailAfter: -1}}
+		if rnd.Chance(1, 8) {
+			na := []string{"bound@example.org/r2", "me@example.com/x", "example.org", "b2@example.com"}[rnd.Intn(4)]
+			co.opt.Rebind = []string{"update", "header"}[rnd.Intn(2)]
+			co.opt.NewAddr = jid.MustParse(na)
+			if rnd.Chance(1, 2) {
+				old := map[string]string{NSClient: `"me@example.com"`, NSServer: `"example.com"`}[ns]
+				body = strings.ReplaceAll(body, old, `"`+co.opt.NewAddr.Bare().String()+`"`)
+			}
+		}
+		c.checkO(co, ns, []byte(body), ps, "random")
+	}
+	// random with pending requests: ids i0..i4 as the random elements use them
+	for i := 0; i < n/8; i++ {
+		ns := NSClient
+		if rnd.Chance(1, 3) {
+			ns = NSServer
+		}
+		body := genBody(rnd, 5)
+		ps := genProgs(rnd, 5)
+		var pends []Pend
+		for k := 1 + rnd.Intn(2); k > 0; k-- {
+			id := fmt.Sprintf("i%d", rnd.Intn(5))
+			dup := false
+			for _, q := range pends {
+				dup = dup || q.ID == id
+			}
+			if dup {
+				continue
+			}
+			pn := name("iq")
+			if rnd.Chance(1, 3) {
+				pn = xml.Name{Space: []string{NSClient, NSServer}[rnd.Intn(2)], Local: "iq"}
+			}
+			pends = append(pends, Pend{ID: id, Name: pn, Reads: rnd.Intn(8) - 1})
+		}
+		c.checkO(caseOpt{opt: Opts{FailAfter: -1}, pends: pends}, ns, []byte(body), ps, "random-pending")
 	}
 	return nil
 }
@@ -960,6 +1246,11 @@ func (c *ctx) replay(lines []string) error {
 			closed0 = g[2] == "1"
 			g = append(g[:2], g[3:]...)
 		}
+		if len(g) >= 9 && g[1] == "servepw" {
+			// servepw ns lb jm pd reads toks progs: same fields as serve once pd, reads are dropped
+			g = append(g[:5:5], g[7:]...)
+			g[1] = "serve"
+		}
 		if len(g) < 7 {
 			continue
 		}
@@ -971,7 +1262,14 @@ func (c *ctx) replay(lines []string) error {
 		if err != nil {
 			return err
 		}
-		c.checkX(closed0, ns, body, progs, "replay")
+		co := caseOpt{closed0: closed0, opt: Opts{FailAfter: -1}}
+		if i+1 < len(lines) {
+			if o := strings.Fields(lines[i+1]); len(o) == 4 && o[0] == "#opts" {
+				co.opt = DecOpts(o[1])
+				co.pends = decPends(o[2], o[3])
+			}
+		}
+		c.checkO(co, ns, body, progs, "replay")
 	}
 	return nil
 }
